@@ -1,6 +1,6 @@
 (* C18 - no hidden sharing or mutation: property theorems (proofs in theories/ShareProofs.v). *)
 From Coq Require Import List Arith Bool ZArith.
-From Verif Require Import Share ShareProofs ShareMore.
+From Verif Require Import Share ShareProofs ShareMore ShareTwice ShareNoDup.
 Import ListNotations.
 
 (* Serialization.  For every class table / format dialect E, call dialect, no_copy set,
@@ -176,3 +176,73 @@ Theorem C18_decode_dialect_independent : forall E E' t w n,
   fields_agree E E' -> unpack_top E t w n = unpack_top E' t w n.
 Proof. exact unpack_dialect_independent. Qed.
 Print Assumptions C18_decode_dialect_independent.
+
+(* Where labels come from (no conformance needed): every label of a result is a label of the argument
+   or was drawn from the call's own supply [n, n').  Hence two calls on the same argument with
+   disjoint supplies return structures that have nothing in common but the argument's own containers:
+   no cached or shared default container can appear in two results. *)
+Theorem C18_labels_arg_or_supply : forall E n0 v call e n,
+  all_old n0 v = true -> n0 <= n ->
+  let (r, n') := run_pack E v call e n in n <= n' /\ lab_ok n0 n n' r.
+Proof. intros E n0 v. exact (pack_labels_all E n0 v). Qed.
+Print Assumptions C18_labels_arg_or_supply.
+
+Theorem C18_two_calls_disjoint : forall E n0 call N t v,
+  all_old n0 v = true ->
+  let (r1, n1) := pack_top E call N t v n0 in
+  let (r2, n2) := pack_top E call N t v n1 in
+  forall l, In l (labels r1) -> In l (labels r2) -> l < n0.
+Proof. exact pack_twice_disjoint. Qed.
+Print Assumptions C18_two_calls_disjoint.
+
+Theorem C18_decode_two_calls_disjoint : forall E n0 t w,
+  all_old n0 w = true ->
+  let (r1, n1) := unpack_top E t w n0 in
+  let (r2, n2) := unpack_top E t w n1 in
+  forall l, In l (labels r1) -> In l (labels r2) -> l < n0.
+Proof. exact unpack_twice_disjoint. Qed.
+Print Assumptions C18_decode_two_calls_disjoint.
+
+(* Absent keys: a field with default_factory=list whose key is missing from the input (TAbsent) gets a new list
+   from the supply of that call -- covered by C18_decode_fresh / C18_decode_all_fresh (anyref is empty there)
+   and C18_decode_two_calls_disjoint; Literal positions (TLit) are atoms packed by a helper that is not the
+   bare name. *)
+Definition env_dflt : env :=
+  {| e_ct := fun _ => {| c_sup := false; c_nc := None; c_fields := [TSeq OList TAtom; TAbsent (DFresh KList); TAbsent DAtom; TLit] |};
+     e_fmt := None; e_lp := fun _ => false |}.
+Example C18_nonvacuous_defaults :
+  let w := VMap KDict 0 [(VAtom 0%Z, VSeq KList 1 [VAtom 1%Z]); (VAtom 0%Z, VNone); (VAtom 0%Z, VNone); (VAtom 0%Z, VAtom 2%Z)] in
+  wconforms env_dflt w (TDC 0) = true /\
+  unpack_top env_dflt (TDC 0) w 2 = (VObj 0 2 [VSeq KList 3 [VAtom 1%Z]; VSeq KList 4 []; VAtom 0%Z; VAtom 2%Z], 5) /\
+  fst (unpack_top env_dflt (TDC 0) w 5) = VObj 0 5 [VSeq KList 6 [VAtom 1%Z]; VSeq KList 7 []; VAtom 0%Z; VAtom 2%Z] /\
+  fst (pack_top env0 None [OList] (TSeq OList TLit) (VSeq KList 0 [VAtom 1%Z]) 1) = VSeq KList 1 [VAtom 1%Z].
+Proof. vm_compute. repeat split; reflexivity. Qed.
+
+(* TypedDict (TRec) and ChainMap (TComp KChainMap (TRMap K V)) are always rebuilt: under any no_copy set
+   the containers of the result are new, only items at by-reference positions stay the argument's. *)
+Example C18_nonvacuous_typeddict_chainmap :
+  let td := TRec [TSeq OList TAtom; TAtom] in
+  let v := VMap KDict 0 [(VAtom 0%Z, VSeq KList 1 [VAtom 1%Z]); (VAtom 0%Z, VAtom 2%Z)] in
+  let cm := TComp KChainMap (TRMap TAtom (TSeq OList TAtom)) in
+  let c := VSeq KChainMap 0 [VMap KDict 1 [(VAtom 0%Z, VSeq KList 2 [VAtom 1%Z])]] in
+  conforms env0 v td = true /\ udet env0 v None [OList; ODict] true td = true /\
+  fst (pack_top env0 None [OList; ODict] td v 3) = VMap KDict 3 [(VAtom 0%Z, VSeq KList 1 [VAtom 1%Z]); (VAtom 0%Z, VAtom 2%Z)] /\
+  maxold 3 (fst (pack_top env0 None [] td v 3)) = [] /\
+  conforms env0 c cm = true /\
+  fst (pack_top env0 None [OList; ODict] cm c 3) = VSeq KList 3 [VMap KDict 4 [(VAtom 0%Z, VSeq KList 2 [VAtom 1%Z])]] /\
+  fst (unpack_top env0 cm (VSeq KList 0 [VMap KDict 1 [(VAtom 0%Z, VSeq KList 2 [VAtom 1%Z])]]) 3)
+    = VSeq KChainMap 3 [VMap KDict 4 [(VAtom 0%Z, VSeq KList 5 [VAtom 1%Z])]].
+Proof. vm_compute. repeat split; reflexivity. Qed.
+
+(* No aliasing inside a result: the labels drawn from the supply occur once each, i.e. the new containers of
+   a result are pairwise distinct objects (so mutating one part of the result cannot change another new part).
+   No conformance hypothesis. *)
+Theorem C18_fresh_distinct : forall E n0 call N t v,
+  all_old n0 v = true -> NoDup (flabels n0 (fst (pack_top E call N t v n0))).
+Proof. exact pack_fresh_nodup. Qed.
+Print Assumptions C18_fresh_distinct.
+
+Theorem C18_decode_fresh_distinct : forall E n0 t w,
+  all_old n0 w = true -> NoDup (flabels n0 (fst (unpack_top E t w n0))).
+Proof. exact unpack_fresh_nodup. Qed.
+Print Assumptions C18_decode_fresh_distinct.
